@@ -28,6 +28,15 @@ TAG_MAP.update(
      univ.Real.tagSet: RealPayloadDecoder()}
 )
 
+# DER prohibits constructed encoding of all string types (X.690, 10.2),
+# character strings and the like are no exception
+for tagSet, typeDecoder in list(TAG_MAP.items()):
+    if (isinstance(typeDecoder, decoder.OctetStringPayloadDecoder) and
+            typeDecoder.supportConstructedForm):
+        TAG_MAP[tagSet] = type(
+            typeDecoder.__class__.__name__, (typeDecoder.__class__,),
+            {'supportConstructedForm': False})()
+
 TYPE_MAP = decoder.TYPE_MAP.copy()
 
 # Codecs overridden by tag must be overridden by type ID as well, otherwise
@@ -38,6 +47,10 @@ TYPE_MAP.update(
      univ.OctetString.typeId: TAG_MAP[univ.OctetString.tagSet],
      univ.Real.typeId: TAG_MAP[univ.Real.tagSet]}
 )
+
+for typeDecoder in TAG_MAP.values():
+    if isinstance(typeDecoder, decoder.OctetStringPayloadDecoder):
+        TYPE_MAP[typeDecoder.protoComponent.__class__.typeId] = typeDecoder
 
 # Put in non-ambiguous types for faster codec lookup
 for typeDecoder in TAG_MAP.values():
